@@ -254,6 +254,27 @@ def mk_vehicle(
 
 
 def mk_station(env, rn, sid, geoid, chargers: Dict[str, int], fleets=(), on_shift=None) -> Station:
+    """a station assembled the way the stations file is read: one row per plug type through Station.from_row (the first row
+    builds the station, later rows append plug types), memberships set afterwards as the fleets file does"""
+    import h3
+
+    lat, lon = h3.h3_to_geo(geoid)
+    if h3.geo_to_h3(lat, lon, rn.sim_h3_resolution) != geoid or on_shift is not None:
+        # (rows after a station's first one do not carry their on_shift_access flag into the station: explicit on-shift sets
+        # are built directly)
+        return _mk_station_direct(env, rn, sid, geoid, chargers, fleets, on_shift)
+    builder: Dict[str, Station] = {}
+    for cid, n in chargers.items():
+        row = {"station_id": sid, "lat": repr(lat), "lon": repr(lon), "charger_id": cid, "charger_count": str(n),
+               "on_shift_access": "true" if (on_shift is None or cid in on_shift) else "false"}
+        builder[sid] = Station.from_row(row, builder, rn, env)
+    st = builder[sid]
+    if tuple(fleets):
+        st = st.set_membership(tuple(fleets))
+    return st
+
+
+def _mk_station_direct(env, rn, sid, geoid, chargers: Dict[str, int], fleets=(), on_shift=None) -> Station:
     return Station.build(
         station_id=sid,
         geoid=geoid,
@@ -343,6 +364,7 @@ class World:
         self.request_specs: Dict[str, dict] = {}
         self.price_rows: Dict[str, dict] = {}
         self.rate_structure = RequestRateStructure()
+        self.throttle_rows: Dict[str, tuple] = {}  # name -> (station, plug, factor): run-time re-rating of a plug, once each
         self.controller_menu: List[tuple] = []  # static instruction menu
         self.needs: List[str] = []  # coverage cells this world must exercise (vacuity)
 
@@ -355,6 +377,9 @@ class World:
                 evs.append(("R", name))
         for name in self.price_rows:
             evs.append(("P", name))
+        for name in self.throttle_rows:
+            if "T:" + name not in self.released(hv):
+                evs.append(("T", name))
         return evs
 
     # the set of request names already released is the one history variable every world needs
@@ -365,7 +390,7 @@ class World:
         return hv
 
     def hv_next(self, hv, pre, events, post, reports) -> Any:
-        rel = [e[1] for e in events if e[0] == "R"]
+        rel = [e[1] for e in events if e[0] == "R"] + ["T:" + e[1] for e in events if e[0] == "T"]
         return hv | frozenset(rel) if rel else hv
 
     @staticmethod
@@ -423,6 +448,14 @@ class World:
                 use_defaults=False,
             )
             sim, _ = upd.update(sim, env)
+        for e in events:
+            if e[0] == "T":
+                # the grid side re-rates a plug between two steps (Station.scale_charger_rate, the co-simulation hook)
+                sid, cid, factor = self.throttle_rows[e[1]]
+                err, sim2 = simulation_state_ops.modify_station(sim, sim.stations[sid].scale_charger_rate(cid, factor).unwrap())
+                if err is not None or sim2 is None:
+                    raise RuntimeError(f"throttle event {e}: {err}")
+                sim = sim2
         arrivals = [e[1] for e in events if e[0] == "R"]
         if arrivals:
             rows = [self.request_row(n, now) for n in arrivals]
